@@ -447,9 +447,12 @@ func c02YieldOperand(ctx *core.Ctx, idx int) core.Result {
 	bump := func(v string) ast.Node {
 		return ast.Assign{Name: v, Value: ast.Binary{Op: "+", L: ast.Binary{Op: "*", L: nm(v), R: il(k)}, R: il(1)}}
 	}
+	// between its two yields the generator recurses deep enough (sometimes) to outgrow its private stack
+	deep := int64([]int{0, 0, 4, 60, 180}[r.Intn(5)])
 	hdef := func(args []ast.Node) ast.Node {
-		return ast.Assign{Name: "h", Value: ast.FuncLit{Body: ast.Block{Stmts: []ast.Node{ast.Assign{Name: "a", Value: ast.Call{Fn: "emit", Args: args}}, ast.Assign{Name: "b", Value: ast.Call{Fn: "emit", Args: args}}, ast.Yield{X: ast.ArrayLit{Elems: []ast.Node{nm("a"), nm("b")}}}}}}}
+		return ast.Assign{Name: "h", Value: ast.FuncLit{Body: ast.Block{Stmts: []ast.Node{ast.Assign{Name: "a", Value: ast.Call{Fn: "emit", Args: args}}, icall("zdeep", il(deep)), ast.Assign{Name: "b", Value: ast.Call{Fn: "emit", Args: args}}, ast.Yield{X: ast.ArrayLit{Elems: []ast.Node{nm("a"), nm("b")}}}}}}}
 	}
+	zdeep := ast.Assign{Name: "zdeep", Value: ast.FuncLit{Params: []string{"q"}, Body: ast.If{Cond: ast.Binary{Op: "<=", L: nm("q"), R: il(0)}, Then: il(0), Else: ast.Binary{Op: "+", L: il(1), R: icall("zdeep", ast.Binary{Op: "-", L: nm("q"), R: il(1)})}}}}
 	loop := func(v string) []ast.Node {
 		return []ast.Node{ast.Assign{Name: "seen", Value: ast.ArrayLit{}},
 			ast.For{Vars: []string{"v"}, Iters: []ast.Node{icall("h")}, Body: ast.Block{Stmts: []ast.Node{ast.Assign{Name: "seen", Value: ast.Binary{Op: "+", L: nm("seen"), R: ast.ArrayLit{Elems: []ast.Node{nm("v")}}}}, bump(v)}}},
@@ -492,9 +495,11 @@ func c02YieldOperand(ctx *core.Ctx, idx int) core.Result {
 		}
 		stmts = []ast.Node{ast.Assign{Name: "emit", Value: ast.FuncLit{Params: params, Body: eb}}, hdef(args), ast.Assign{Name: "q", Value: il(3)}, ast.Block{Stmts: loop("q")}}
 	}
-	opts := diffOpts{DoOut: idx%2 == 0, Stress: stressModes[(idx/6)%len(stressModes)], Residue: true}
+	stmts = append([]ast.Node{zdeep}, stmts...)
+	// (the operand kind is idx%6: the mode must not be a function of idx%2)
+	opts := diffOpts{DoOut: (idx/6)%4 != 3, Stress: stressModes[(idx/24)%len(stressModes)], Residue: true}
 	d := runDiff(stmts, opts)
-	res := diffCase("C02", stmts, opts, d, map[string]any{"family": "yieldoperand", "operand": names[kind]})
+	res := diffCase("C02", stmts, opts, d, map[string]any{"family": "yieldoperand", "operand": names[kind], "recursion_between_yields": deep})
 	res.Tag("yield-operand:" + names[kind])
 	res.Nontrivial = d.Verdict == core.Held && d.Stats.Yields >= 3
 	return res
